@@ -11,6 +11,7 @@ import PycModel.Spec.Decl
 import PycModel.Spec.Stmt
 import PycModel.Spec.Lexical
 import PycModel.Spec.Scoping
+import PycModel.Spec.TuGen
 import PycModel.Generated.LexTables
 /-! Model driver: one request per line on stdin, one response per line on stdout. -/
 open PycModel PycModel.Proto
@@ -211,6 +212,15 @@ def handle (line : String) : String :=
         (if bare then acc.1 ++ [e] else acc.1 ++ [e, .probe "T" (acc.2 % 4), .probe "U" ((acc.2 + 1) % 4)], acc.2 + 1)) ([], i)
       some (Spec.histCaseLeaky p withProbes.1)
     toString all.size ++ "\t" ++ "\t".intercalate (cases.map fun (t, d) => rec [t, d])
+  | ["c01", "tu", seed, count, depth, nexts] =>
+    -- random translation units of the fragment of TransUnit.parse_translation_unit: text and the FileAST the theorem states
+    let rec goT : Nat → Nat → List (String × String) → List (String × String)
+      | 0, _, acc => acc.reverse
+      | n+1, s, acc =>
+        let r := TuGen.genProgram depth.toNat! (1 + (s / 65536) % nexts.toNat!) (Spec.lcg s)
+        goT n (Spec.lcg r.2) (TuGen.tuCase r.1 :: acc)
+    let cases := goT count.toNat! (Spec.lcg (seed.toNat! + 101)) []
+    "\t".intercalate (cases.map fun (t, d) => rec [t, d])
   | ["genast", dump] =>
     match readDump dump with
     | some v => "OK\t" ++ genStr false v ++ "\t" ++ genStr true v
